@@ -225,6 +225,9 @@ def record(chk, results, tag=""):
             hist[fam + "." + k] = hist.get(fam + "." + k, 0) + v
         if any(r["cov"].get(k, 0) for k in NONTRIVIAL):
             nontriv.add((r["config"], r["driver"][0]))
+            if not any(x.get("config") == r["config"] for x in chk.cov["samples"]):
+                chk.sample({"config": r["config"], "cmd": " ".join(str(x) for x in r["cmd"][1:]), "events": r["events"],
+                            "driver": r["driver"][0][:700]})
         if "solo" in r:
             s = chk.cov.setdefault("solo_runs", [0, 0])
             s[0] += r["solo"][0]
